@@ -131,3 +131,11 @@ def canaries(tier, seed):
     r = run("quick", seed, mutant="map_drop_result", only_validate=True)
     n = [v for v in r.violations if v["signature"].get("kind") != "premature-callback"]
     return [dict(name="mutant:map_drop_result", detected=bool(n), rejected=len(n))]
+
+
+TRACE_MODULE = "AsyncEmitTrace"
+
+
+def replay(v):
+    import sys as _s
+    return amod.replay_node(_s.modules[__name__], v)
